@@ -190,6 +190,12 @@ def make_layout(rng, volumes=None, home_own_volume=None, uid=None, xdg=None,
     if volumes is None:
         volumes = rng.choice([[], ['v1'], ['v1'], ['v1', 'v2'],
                               ['v1', 'v1/nested'], ['v1', 'v1/nested', 'v2']])
+        if rng.random() < 0.12:
+            # a mount point whose own name is hostile (format characters,
+            # blanks, non-ASCII, something that looks like an option)
+            volumes = list(volumes) + [rng.choice(
+                ['usb 100%', '50%off', 'a%%b', 'd%s', 'media/my disk',
+                 'm\u00e9dia', '-v', 'vol.trashinfo', 'x=y'])]
     if home_own_volume is None:
         home_own_volume = rng.random() < 0.25
     L.mounts = [''] + list(volumes) + (['home'] if home_own_volume else [])
